@@ -17,7 +17,7 @@ pub fn property() -> Property {
     Property {
         id: "C16",
         level: "exploration",
-        rule: "Lab-S family `socks`: greeting (version 5/4/0/255/random, declared method count 0/1/2/255 with matching list, lists with and without 0x00) and request (version, command 1/2/3/0/0x80/random, any RSV, ATYP 1/3/4/0/2/5/255, IPv4 / IPv6 / domain `localhost` destinations of loopback targets, refusing ports) generated and delivered whole, byte-at-a-time or in random segments with pauses (TCP_NODELAY), the request optionally glued to the greeting and payload glued to the request, with a healthy neighbour connection alongside. Reference model of RFC 1928: method selection 05 00 <=> version 5 and 0x00 offered (otherwise 05 FF or close, never 05 00); a tunnel exactly to the requested destination and only for command 1; REP=0 only with an accepted target connection, non-zero REP or close otherwise; malformed input ends that connection only (neighbour keeps echoing, a fresh valid connection succeeds). Non-trivial = request delivered in >= 2 segments, or command != 1, or ATYP != 1, or the refusal path. Distinct = distinct serialized case. Family `front` (shared with C07): greeting and request pipelined in generated segmentations for any IPv4/IPv6 address, names of every length 1..255 and any port through the real SOCKS5 listener and the real client to the reference server, which records the destination it is asked to dial: method reply, success reply and the destination on the wire are compared with the request. In the front family four cases in nine put a fault into the AnyTLS leg (the reference server refuses every stream with an ordinary or an unusual reason text, drops the connection when the SYN arrives, or does not know the client's password): every request must then be answered with a SOCKS5 failure code (never 00) / a non-200 status. One front case in thirteen delays every reply of the reference server by 350 / 700 ms (with or without a refusal): the reply to the application is still 'succeeded' exactly when the server accepted the stream.",
+        rule: "Lab-S family `socks`: greeting (version 5/4/0/255/random, declared method count 0/1/2/255 with matching list, lists with and without 0x00) and request (version, command 1/2/3/0/0x80/random, any RSV, ATYP 1/3/4/0/2/5/255, IPv4 / IPv6 / domain `localhost` destinations of loopback targets, refusing ports) generated and delivered whole, byte-at-a-time or in random segments with pauses (TCP_NODELAY), the request optionally glued to the greeting and payload glued to the request, with a healthy neighbour connection alongside. Reference model of RFC 1928: method selection 05 00 <=> version 5 and 0x00 offered (otherwise 05 FF or close, never 05 00); a tunnel exactly to the requested destination and only for command 1; REP=0 only with an accepted target connection, non-zero REP or close otherwise; malformed input ends that connection only (neighbour keeps echoing, a fresh valid connection succeeds). Non-trivial = request delivered in >= 2 segments, or command != 1, or ATYP != 1, or the refusal path. Distinct = distinct serialized case. Family `front` (shared with C07): greeting and request pipelined in generated segmentations for any IPv4/IPv6 address, names of every length 1..255 and any port through the real SOCKS5 listener and the real client to the reference server, which records the destination it is asked to dial: method reply, success reply and the destination on the wire are compared with the request. In the front family four cases in nine put a fault into the AnyTLS leg (the reference server refuses every stream with an ordinary or an unusual reason text, drops the connection when the SYN arrives, or does not know the client's password): every request must then be answered with a SOCKS5 failure code (never 00) / a non-200 status. One front case in thirteen delays every reply of the reference server by 350 / 700 ms (with or without a refusal): the reply to the application is still 'succeeded' exactly when the server accepted the stream. One socks case in forty pauses for 3.4 s at the first cut of the request (cut delivery), wherever that falls - also in the middle of a field.",
         assumptions: vec![
             "kernel loopback; negatives (no connection was made) are evaluated only after the front-end replied or closed",
             "one shared world (server, client, front-ends, targets) per worker thread; cases observe deltas",
